@@ -13,6 +13,8 @@ SERVER = "server::types::Server"
 WRITE_SQL = re.compile(r"^\s*(INSERT|UPDATE|DELETE|REPLACE)\b", re.I)
 
 _cache = {}
+from tc.util import register_cache as _reg
+_reg(_cache)
 
 
 def _memo(F, key, fn):
